@@ -541,6 +541,12 @@ func (mi *muxInstance) search(req *httpprot.Request) *route {
 
 	ip := req.RealIP()
 
+	// The server level IP filter applies to every request, whatever the
+	// result of the routing is, so check it before looking into the cache.
+	if !allowIP(mi.ipFilter, ip) {
+		return forbidden
+	}
+
 	// The key of the cache is req.Host + req.Method + req.URL.Path,
 	// and if a path is cached, we are sure it does not contain any
 	// headers.
@@ -558,9 +564,12 @@ func (mi *muxInstance) search(req *httpprot.Request) *route {
 		return forbidden
 	}
 
-	if !allowIP(mi.ipFilter, ip) {
-		return forbidden
-	}
+	// ruleFilterSeen tells whether a rule in front of the current one matches
+	// the host of the request and has an IP filter. The outcome for a client
+	// rejected by that filter is 403, but the cache key knows nothing about
+	// the client IP (a cached path only carries the filters of its own rule),
+	// so nothing can be cached from then on.
+	ruleFilterSeen := false
 
 	for _, host := range mi.rules {
 		if !host.match(req) {
@@ -586,7 +595,7 @@ func (mi *muxInstance) search(req *httpprot.Request) *route {
 			// the request: such a path must be preferred for the requests that
 			// satisfy its headers, but the cache key knows nothing about headers.
 			if len(path.headers) == 0 {
-				if !headerMismatch {
+				if !headerMismatch && !ruleFilterSeen {
 					r = &route{code: 0, path: path}
 					mi.putRouteToCache(req, r)
 				}
@@ -601,6 +610,10 @@ func (mi *muxInstance) search(req *httpprot.Request) *route {
 
 			return &route{code: 0, path: path}
 		}
+
+		if host.ipFilter != nil {
+			ruleFilterSeen = true
+		}
 	}
 
 	if headerMismatch {
@@ -608,11 +621,15 @@ func (mi *muxInstance) search(req *httpprot.Request) *route {
 	}
 
 	if methodMismatch {
-		mi.putRouteToCache(req, methodNotAllowed)
+		if !ruleFilterSeen {
+			mi.putRouteToCache(req, methodNotAllowed)
+		}
 		return methodNotAllowed
 	}
 
-	mi.putRouteToCache(req, notFound)
+	if !ruleFilterSeen {
+		mi.putRouteToCache(req, notFound)
+	}
 	return notFound
 }
 
